@@ -93,7 +93,7 @@ pub fn param_sweep_plans(mon: Mon, acts1: Vec<Act>, acts2: Vec<Act>, tier: Tier)
     let mut plans = vec![];
     for baud in 0..crate::dprig::BAUDS.len() as u8 {
         let min_slot = crate::w2::MIN_SLOT[baud as usize];
-        let slots: Vec<Option<u16>> = tier.pick(vec![None, Some(min_slot.max(1311)), Some(u16::MAX)], vec![None, Some(min_slot.max(655)), Some(min_slot.max(1311)), Some(5000), Some(32768), Some(u16::MAX)]);
+        let slots: Vec<Option<u16>> = tier.pick(vec![None, Some(min_slot.max(1311)), Some(u16::MAX)], vec![None, Some(min_slot.max(655)), Some(min_slot.max(1311)), Some(u16::MAX)]);
         for slot in slots {
             for n in tier.pick(vec![1usize], vec![1, 2]) {
                 let ps = vec![PeriphCfg::simple(9, 2, 1), PeriphCfg::simple(11, 0, 2)];
@@ -103,7 +103,7 @@ pub fn param_sweep_plans(mon: Mon, acts1: Vec<Act>, acts2: Vec<Act>, tier: Tier)
                 if n == 2 {
                     cfg.dev_budget = 2;
                 }
-                plans.push(Plan { label: format!("sweep {n}p baud#{baud} slot={slot:?}"), cfg, depth: tier.pick(5, 8), max_states: tier.pick(20_000, 300_000), secs: tier.pick(60.0, 1200.0) });
+                plans.push(Plan { label: format!("sweep {n}p baud#{baud} slot={slot:?}"), cfg, depth: tier.pick(5, 7), max_states: tier.pick(20_000, 300_000), secs: tier.pick(60.0, 1200.0) });
             }
         }
     }
